@@ -140,6 +140,33 @@ def set : Node → Bytes → Bytes → Option (Node × Bool)
       | some (r', true) => some (inner nk h s l r' Meta.fresh, true)
       | some (r', false) => (balance (mk nk l r')).map (fun n => (n, false))
 
+/-- result of `Node.remove`. -/
+inductive RemRes where
+  | notFound                                        -- `removed = false`: the subtree is returned unchanged
+  | gone (value : Bytes)                            -- the node was the leaf holding the key (`nil, nil`)
+  | replaced (n : Node) (newKey : Option Bytes) (value : Bytes)   -- new subtree, new leftmost key if it changed
+
+/-- `Node.remove` (tree API `Tree.Remove` / `DelKVPair`; `Store.Del` is "not support"): the sibling replaces the
+parent of the removed leaf, `newKey` carries the new leftmost key up to the first ancestor entered from the right,
+every rebuilt node is re-measured and rebalanced.  `none` = Go panic inside `balance`. -/
+def remove : Node → Bytes → Option RemRes
+  | leaf k v _, key => some (if k = key then .gone v else .notFound)
+  | inner nk _ _ l r _, key =>
+    if cmpB key nk = .lt then
+      match remove l key with
+      | none => none
+      | some .notFound => some .notFound
+      | some (.gone v) => some (.replaced r (some nk) v)
+      | some (.replaced l' nkey v) => (balance (mk nk l' r)).map (fun n => .replaced n nkey v)
+    else
+      match remove r key with
+      | none => none
+      | some .notFound => some .notFound
+      | some (.gone v) => some (.replaced l none v)
+      | some (.replaced r' nkey v) =>
+        let k' := match nkey with | some k => k | none => nk
+        (balance (mk k' l r')).map (fun n => .replaced n none v)
+
 /-- `Node.get`: (index, value if the key exists). -/
 def get : Node → Bytes → Int × Option Bytes
   | leaf nk nv _, key =>
@@ -204,6 +231,27 @@ def Tree.setMany : Tree → List (Bytes × Bytes) → Option Tree
     match Tree.set t k v with
     | none => none
     | some (t', _) => Tree.setMany t' kvs
+
+/-- `Tree.Remove`: new tree and the removed value (`none` = key absent). -/
+def Tree.remove : Tree → Bytes → Option (Tree × Option Bytes)
+  | none, _ => some (none, none)
+  | some n, k =>
+    match n.remove k with
+    | none => none
+    | some .notFound => some (some n, none)
+    | some (.gone v) => some (none, some v)
+    | some (.replaced n' _ v) => some (some n', some v)
+
+/-- the loop of `DelKVPair`: the values of the keys that were removed. -/
+def Tree.removeMany : Tree → List Bytes → Option (Tree × List (Option Bytes))
+  | t, [] => some (t, [])
+  | t, k :: ks =>
+    match Tree.remove t k with
+    | none => none
+    | some (t', v) =>
+      match Tree.removeMany t' ks with
+      | none => none
+      | some (t'', vs) => some (t'', v :: vs)
 
 def Tree.get : Tree → Bytes → Int × Option Bytes
   | none, _ => (0, none)
@@ -538,6 +586,21 @@ def Store.setKV (H : Bytes → Bytes) (s : Store) (parent : Bytes) (bh : Nat) (k
       | .notfound => (.notfound, s)
       | .panic => (.panic, s)
 
+/-- `DelKVPair` (tree API; a fresh `Tree` has block height 0): load, remove the keys, save. -/
+def Store.delKV (H : Bytes → Bytes) (s : Store) (parent : Bytes) (keys : List Bytes) :
+    Res (Bytes × List (Option Bytes)) × Store :=
+  match s.loadRoot parent with
+  | (.notfound, s) => (.notfound, s)
+  | (.panic, s) => (.panic, s)
+  | (.ok t, s) =>
+    match Tree.removeMany t keys with
+    | none => (.panic, s)
+    | some (t', vs) =>
+      match saveTree H s.cfg 0 t' s.db with
+      | .ok (root, t'', db') => (.ok (root, vs), ({ s with db := db' }).cacheTree root t'')
+      | .notfound => (.notfound, s)
+      | .panic => (.panic, s)
+
 def lookupTree (trees : List (Bytes × Option Node)) (h : Bytes) : Option (Option Node) :=
   match trees.find? (fun p => p.1 == h) with
   | none => none
@@ -665,6 +728,14 @@ def handle (s : Store) (ws : List String) : Option (Store × String) :=
     let kvs ← pKVs kvs
     match s.setKV H parent bh kvs with
     | (.ok root, s') => pure (s', "root " ++ hx root)
+    | (.notfound, s') => pure (s', "notfound")
+    | (.panic, s') => pure (s', "panic")
+  | ["del", parent, keys] => do
+    let parent ← pBytes parent
+    let keys ← pKeys keys
+    match s.delKV H parent keys with
+    | (.ok (root, vs), s') =>
+      pure (s', "root " ++ hx root ++ " " ++ ",".intercalate (vs.map (fun v => match v with | none => "-" | some b => if b.isEmpty then "-" else toHex b)))
     | (.notfound, s') => pure (s', "notfound")
     | (.panic, s') => pure (s', "panic")
   | ["get", root, keys] => do
